@@ -239,3 +239,84 @@ Proof.
   apply Forall_forall. intros i Hi.
   destruct (Forall2_both_In _ _ _ _ i HF HF Hi) as (s & _ & P & _). pose proof (nth_optN_lt _ _ _ P) as Hlt. clear - Hlt Hnsec. lia.
 Qed.
+
+(* ---------- ... and the data of a reloaded section ---------- *)
+Section DataBack.
+  Variable junk : N -> N.
+
+  (* whatever file holds a section's bytes at its offset: a data request on a section that was loaded (lazily) from
+     that file's header table stores exactly those bytes *)
+  Lemma file_data_read_back (file : bytes) st s (b : bytes) r :
+    sliceN file (sh_offset s) (sh_size s) = firstnN b (sh_size s) -> sh_size s <= lenN b ->
+    csize s <> 0 -> same_hdr s r -> s_data r = None -> s_stream_size r = lenN file ->
+    is_fail st = false -> st_inv st -> is_content st = file -> lenN file < 2 ^ 63 ->
+    exists st1 s1,
+      sec_load_data junk (Some st) [] r = Ok (Some st1, s1, true, [sh_size r + 1]) /\
+      s_data s1 = Some (firstnN b (sh_size s) ++ [0]).
+  Proof.
+    intros F2 Hdata Hc HS Dr SSr Hf Hi Hcon H63.
+    destruct HS as (_ & HT & _ & _ & HO & HZ & _).
+    assert (Hcar : carries s = true /\ sh_size s <> 0).
+    { unfold csize in Hc. destruct (carries s); [split; [reflexivity|exact Hc]|contradiction]. }
+    destruct Hcar as [Hcar Hnz]. unfold carries in Hcar. apply andb_true_iff in Hcar. destruct Hcar as [T1 T2].
+    apply negb_true_iff, N.eqb_neq in T1, T2.
+    assert (HL : lenN (firstnN b (sh_size s)) = sh_size s) by (rewrite lenN_firstnN; lia).
+    pose proof (slice_full_len _ _ _ _ F2 HL ltac:(lia)) as Hin_file.
+    assert (Hoff : sec_file_off [] r = sh_offset s).
+    { unfold sec_file_off. cbn [xlat_apply]. rewrite HO. unfold of_signed64, to_signed64.
+      rewrite N.mod_small by lia. destruct (N.ltb_spec (sh_offset s) (2 ^ 63)); [|lia]. rewrite Z.mod_small by lia. lia. }
+    assert (Hl : sec_loadable [] (is_content st) r).
+    { unfold sec_loadable. rewrite Hcon, Hoff, HZ, HT, SSr, Dr. repeat split; auto; lia. }
+    destruct (sec_load_data_complete junk st [] r Hf Hi Hl) as (st1 & s1 & E & D & _).
+    exists st1, s1. split; [exact E|]. rewrite D, Hcon, Hoff, HZ, F2. reflexivity.
+  Qed.
+End DataBack.
+
+Theorem oneseg_reload_data junk el h0 g bound ms :
+  let idxs := g_sections g in
+  let align := if 0 <? p_align g then p_align g else 1 in
+  let secs := el_secs el in
+  let pos0 := e_ehsize h0 + e_phentsize h0 in
+  el_hdr el = Some h0 -> el_segs el = [g] -> lenN secs < 2 ^ 16 ->
+  lenN idxs < 2 ^ 16 -> idxs <> [] -> g_offset_set g = false -> p_type g <> PT_PHDR -> NoDup idxs ->
+  Forall2 (fun i s => nth_optN secs i = Some s) idxs ms ->
+  Forall auto_member ms -> Forall (fun s => sh_addralign s <= p_align g) ms ->
+  bound <= 2 ^ 63 -> Forall (fun s => bound <= 2 ^ xw (s_cls s)) secs -> bound <= 2 ^ xw (g_cls g) ->
+  bound <= 2 ^ xw (e_cls h0) -> p_align g < 2 ^ 63 ->
+  p_vaddr g + pos0 + align + mbudget ms + budget secs + 16 + e_shentsize h0 * lenN secs < bound ->
+  indexed_from 0 secs ->
+  (forall s, In s secs -> s_index s = 0 -> csize s = 0) ->
+  (forall s b, In s secs -> s_data s = Some b -> sh_size s <= lenN b) ->
+  lenN (e_ident h0) = 16 -> e_ehsize h0 = ehdr_size (e_cls h0) ->
+  (forall s, In s secs -> shdr_size (s_cls s) <= e_shentsize h0) ->
+  phdr_size (g_cls g) <= e_phentsize h0 -> g_index g = 0 ->
+  exists el' h' g',
+    layout el = Ok (el', true) /\ el_hdr el' = Some h' /\ el_segs el' = [g'] /\
+    let plan := oneseg_plan h' (el_secs el') (segments_plan (e_enc h') h' [g']) in
+    (plan_small 0 plan ->
+     let file := os_bytes (exec_plan (new_ostream None) plan) in
+     lenN file < 2 ^ 63 ->
+     forall st s b r,
+       In s (el_secs el') -> csize s <> 0 -> s_data s = Some b ->
+       same_hdr s r -> s_data r = None -> s_stream_size r = lenN file ->
+       is_fail st = false -> st_inv st -> is_content st = file ->
+       exists st1 s1,
+         sec_load_data junk (Some st) [] r = Ok (Some st1, s1, true, [sh_size r + 1]) /\
+         s_data s1 = Some (firstnN b (sh_size s) ++ [0])).
+Proof.
+  cbv zeta. intros Hh Hs Hnsec Hlen Hne Hos Hty Hnd HF Hauto Hdom Hb63 Hcls Hbg Hbh Hal Hbud Hidx Hnull Hdata Hident Heh Hes Hph Hgi.
+  destruct (oneseg_saved_file el h0 g bound ms Hh Hs Hnsec Hlen Hne Hos Hty Hnd HF Hauto Hdom Hb63 Hcls Hbg Hbh Hal Hbud Hidx
+              Hnull Hdata Hident Heh Hes Hph Hgi)
+    as (el' & h' & g' & ss & pos1 & pos2 & L & Eh & Eg & RL & _ & _ & _ & _ & _ & _ & _ & _ & _ & _ & _ & _ & _ & FILE).
+  exists el', h', g'. split; [exact L|]. split; [exact Eh|]. split; [exact Eg|].
+  intros Hsmall H63 st s b r Hin Hc Hd HS Dr SSr Hf Hi Hcon.
+  destruct (FILE Hsmall) as (_ & _ & _ & FD). clear FILE.
+  apply (file_data_read_back junk _ st s b r (FD s b Hin Hc Hd)); try assumption.
+  (* the data buffer covers the section's size: kept by the layout *)
+  destruct (In_nth_optN _ _ Hin) as (j & Hj).
+  pose proof (Forall2_lenN _ _ _ RL) as Ln.
+  destruct (nth_optN_some (el_secs el) j ltac:(rewrite <- Ln; exact (nth_optN_lt _ _ _ Hj))) as (x & Hx).
+  destruct (Forall2_nth_l _ _ _ RL j x Hx) as (y & Hy & R). rewrite Hj in Hy. injection Hy as <-.
+  destruct (relaid_attrs _ _ R) as (_ & _ & _ & Rs & _ & _ & Rd & _). rewrite Rs. apply (Hdata x b); [eapply nth_optN_In; eauto|].
+  rewrite <- Rd. exact Hd.
+Qed.
